@@ -909,9 +909,9 @@ def run_utils(ctx, impl, rng, quick, dmax):
     cs, ex = [], []
     for _ in range(nU):
         n = rng.randint(1, dmax)
-        dt = rng.choice(['float', 'int', 'bool'])
+        dt = rng.choice(['float', 'float32', 'int', 'bool'])      # float32: fractional (dyadic) weights in single precision
         m = rsm(rng, n, n, nonneg=True)
-        if dt != 'float':
+        if dt not in ('float', 'float32'):
             m['coo'] = [[i, j, 1 if dt == 'bool' else max(1, int(v))] for i, j, v in m['coo']]
         m['dtype'] = dt
         w = rng.random() < 0.5
